@@ -40,6 +40,7 @@ RULE = ('case = one (class, size) whose distance search terminated; distinct '
 ASSUMPTIONS = ['supported size family = pv/families.py',
                'C01: the listed logicals generate all logical classes']
 REQUIRED_COUNTERS = ['d_reread_on_one_object',
+                     'public_properties_read_before_d',
                      'codes_decided', 'search_nodes', 'deformed_d_compared',
                      'inputs_d_compared']
 SHARD_TIMEOUT = {'quick': 900, 'thorough': 5400}
@@ -204,6 +205,28 @@ def run_code(task, out):
         obj2.get_logicals_z()
         obj2.get_stabilizer_coordinates()
         seq.append(int(obj2.d))
+        # d read after other derived data, in the orders other components
+        # use: matrix then k then d (a simulation), syndrome first (a
+        # decoder), and after every public property in both name orders
+        obj3 = fam.build(cls, size)
+        obj3.stabilizer_matrix
+        obj3.k
+        seq.append(int(obj3.d))
+        obj4 = fam.build(cls, size)
+        obj4.measure_syndrome(np.zeros(2 * obj4.n, dtype='uint8'))
+        seq.append(int(obj4.d))
+        props = sorted(nm for nm in dir(type(obj4))
+                       if not nm.startswith('_') and nm != 'd' and
+                       isinstance(getattr(type(obj4), nm, None), property))
+        for order in (props, props[::-1]):
+            objp = fam.build(cls, size)
+            for nm in order:
+                try:
+                    getattr(objp, nm)
+                except Exception:
+                    pass        # e.g. Hx on a non-CSS code
+            seq.append(int(objp.d))
+            out.count('public_properties_read_before_d', len(order))
         out.count('d_reread_on_one_object', len(seq))
         if any(x != d for x in seq):
             out.violation(f'{cls}/d-changes-over-object-life',
